@@ -20,7 +20,7 @@ prop('C18',
      not_decided='the relay goroutine of GetWriter and the construction of the drip writer in GetWriter (len(Buffer) == BlockSize) are not under contract; tiling of wound ranges across blocks follows from start == k*BS and end == start + cbs by arithmetic outside the verified text')
 
 SIGN = [('/splitfunc', 'New$1'), ('/wsync', '(*Context).CreateSignature$1'), ('/wsync', '(*Context).CreateSignature'),
-        ('/pwr', 'ComputeHashInfo')]
+        ('/pwr', 'ComputeHashInfo'), ('/pwr', 'ReadSignature')]
 
 prop('C04',
      functions=SIGN + BLOCKVALIDATOR + HASHING,
@@ -69,8 +69,19 @@ prop('C01',
      assumes=['everything C11 and C17 assume', 'A-PROTO', 'A-COMP', 'A-FS (the bowl and the file system)'],
      not_decided='byte equality of the replay with the new file (see C11: ghost-source invariant not carried); directory/symlink creation and leftover deletion (tlc.Container.Prepare, outside /repo); the three-goroutine plumbing of WritePatch; processRsync/processBsdiff bodies (not under contract); compression round trip (external codecs)')
 
+PATCHER_SERIES = [('/pwr/patcher', '(*savingPatcher).processRsync'), ('/pwr/patcher', '(*savingPatcher).processBsdiff')]
+
+prop('C10',
+     functions=WIRE_READ + PATCHER + PATCHER_SERIES + [('/pwr', 'ReadSignature'), ('/pwr', 'ComputeHashInfo'), ('/pwr', 'ComputeNumBlocks'), ('/pwr', 'ComputeBlockSize'),
+                ('/wsync', '(*Context).ApplySingleFull')],
+     assumes=['A-SIZE: the two containers of a stream are well-formed (sizes in [0, 2^50], non-nil entries); no message declares a length beyond the stream (in-context contract of binary.ReadUvarint)',
+              'A-POOL: pool methods index c.Files[i]: requires 0 <= i < nfiles', 'A-PROTO', 'A-IO',
+              'collaborators of the patcher (bowl, entry writers, save consumer, bsdiff patch context) do not panic and keep to their own state',
+              'patcher functions are verified for a fresh start (no checkpoint): a checkpoint is the patcher\'s own saved state'],
+     not_decided='memory exhaustion; panics inside dependencies beyond their stated preconditions; the optimizer (rediff), the overlay applier and bsdiff.Apply are not under contract yet')
+
 # properties with a registered check
-CLAIMED = {'C18', 'C04', 'C09', 'C17', 'C11', 'C08', 'C01'}
+CLAIMED = {'C18', 'C04', 'C09', 'C17', 'C11', 'C08', 'C01', 'C10'}
 # reasons for properties not claimed (kept current)
 NOT_APPLICABLE = {}
 LEVEL_TEXT = {
@@ -80,5 +91,6 @@ LEVEL_TEXT = {
  'C11': {'text': 'Proof (unbounded in source length, block size and library): every index into the reusable buffer is in range across wraps and refills; every operation goes through enqueue; no data op exceeds MaxDataOp; a pending block range is extended only by the adjacent range of the same file and is forwarded before any data op; a block is accepted only on equal strong hash and short-size class, never for an empty window, and the bucket search is complete with the preferred file first; a block range replays spanLen bytes from bs*k.', 'design_ref': 'DESIGN.md §5 C11, App. A.1'},
  'C08': {'text': 'Proof of the function-level clauses: reused + fresh byte accounting grows by exactly what each operation replays (spanLen over the old file size / len(Data)); the from-scratch weak hash equals its recursive specification; matching is complete within a bucket, preferred file first; the bucket lookup is skipped only when the rolling value did not change; no match is accepted on the weak hash alone.', 'design_ref': 'DESIGN.md §5 C08'},
  'C01': {'text': 'Proof of the per-file function-level clauses that diff-then-apply rests on: whole-file-op detection is sound (same size, starts at block 0, spans all blocks, index in range), op <-> message field mapping in both directions, unknown op types are errors, per-file framing is consumed up to the end marker, no compressor is involved exactly when the algorithm is NONE, plus everything proved for C11.', 'design_ref': 'DESIGN.md §5 C01'},
+ 'C10': {'text': 'Proof (safety sweep with contracts): every slice/index expression, division, make and pool call of the functions on the read paths under contract is in range for arbitrary field values read from a stream; every message loop has a decreasing measure (unread bytes / block index); old-file indices are validated before they reach the container or the pool.', 'design_ref': 'DESIGN.md §5 C10'},
  'C04': {'text': 'Proof of the function-level clauses: split function cases, one hash per scanned block plus the empty-file entry with correct index/short size, hash grouping by prefix sums of per-file hash counts (ComputeHashInfo, incl. error iff count differs), block validator verdicts; rolling/from-scratch weak hash equals the recursive specification.', 'design_ref': 'DESIGN.md §5 C04'},
 }
